@@ -166,7 +166,8 @@ META["C04"] = {
 }
 @prop("C04")
 def c04():
-    return slot_queries("C04", ["vh_attach", "vh_link_clusters", "vh_delete_gc", "vh_put_copy", "vh_temp_copy"], 3, 4, with_forest=True)
+    return slot_queries("C04", ["vh_link_clusters"], 3, 4, with_forest=True) + \
+           slot_queries("C04", ["vh_attach", "vh_delete_gc", "vh_put_copy", "vh_temp_copy"], 2, 4, with_forest=True)
 # ------------------------------------------------------------------------------------------- C05
 META["C05"] = {
     "bounds": "(a) read_text on exact-size buffers, 0..2 code units (thorough 3) x 3 encodings, nChars = unit count; (b) INSERT / ASSOC / PUT_COPY / TEMP_COPY keep slot before/after/original inside [0,n) from arbitrary INV_assoc states of NS slots (1..3, thorough ..4); (c) associateChars from arbitrary INV_stream+INV_assoc states with NS slots and NS chars (1..3, thorough ..5): every char covered, char-info before/after are slot indices",
@@ -185,7 +186,8 @@ META["C18"] = {
 }
 @prop("C18")
 def c18():
-    return [Q("fref_alloc", "C18_features.cpp", "vh_fref_alloc", unwind=34),
+    return [Q("fref_alloc_lo", "C18_features.cpp", "vh_fref_alloc", {"BITS_LO": 0, "BITS_HI": 4096}, unwind=34),
+            Q("fref_alloc_hi", "C18_features.cpp", "vh_fref_alloc", {"BITS_LO": 4096, "BITS_HI": 8192}, unwind=34),
             Q("fmap_laws", "C18_features.cpp", "vh_fmap_laws", unwind=34, unwindset={"reserve": 4, "insert": 6, "_insert_default": 6}, tiers=("thorough",), timeout=1700)]
 
 # ------------------------------------------------------------------------------------------- C17
@@ -205,4 +207,48 @@ def c17():
             qs.append(Q(f"{e[3:]}_k{k}", "C17_zones.cpp", e, {"K": k}, unwind=k + 6,
                         unwindset={"find_exclusion_under": 5, "remove": k + 3, "insert": k + 3, "closest": k + 3, "VectorINS_5Zones9Exclusion": k + 3, "erase": k + 3, "_insert_default": k + 3}, tiers=tiers, cc_defs=["LL_REALLOC_UNREACHABLE"]))
     qs.append(Q("initialise", "C17_zones.cpp", "vh_initialise", {"K": 1}, unwind=8))
+    return qs
+
+# ------------------------------------------------------------------------------------------- C13
+META["C13"] = {
+    "bounds": "CmapSubtable4Lookup on every CheckCmapSubtable4-accepted, well-formed (sorted, disjoint, start<=end, even idRangeOffset) format-4 subtable with 1..3 segments and 0..2 glyphIdArray entries, all contents, all BMP code points; CmapSubtable12Lookup on well-formed format-12 subtables with 1..3 groups, all 32-bit code points",
+    "outside": "more segments/groups (binary-search depth 2 explored); subtable selection order and the cached path (CachedCmap) - see DESIGN 3.13 status; Silf pseudo-glyph fallback",
+    "assumptions": ["well-formedness as stated (the property's 'well-formed font')"],
+}
+@prop("C13")
+def c13():
+    qs = []
+    for n in (1, 2, 3):
+        for g in (0, 1, 2):
+            tiers = ("quick", "thorough") if (n <= 2 and g <= 1) else ("thorough",)
+            qs.append(Q(f"cmap4_ref_seg{n}_gid{g}", "cmap.cpp", "vh_cmap4_ref", {"NSEG": n, "NGID": g}, unwind=n + 4, unwindset={"vh_bytes": 64}, tiers=tiers))
+        qs.append(Q(f"cmap12_ref_grp{n}", "cmap.cpp", "vh_cmap12_ref", {"NGRP": n}, unwind=n + 3, unwindset={"vh_bytes": 64}, tiers=("quick", "thorough") if n <= 2 else ("thorough",)))
+    return qs
+def c01_cmap():
+    qs = []
+    for L in (4, 12, 20, 28, 36, 44):
+        tiers = ("quick", "thorough") if L <= 36 else ("thorough",)
+        qs.append(Q(f"cmap4_safe_len{L}", "cmap.cpp", "vh_cmap4_safe", {"LEN": L}, unwind=8, unwindset={"vh_bytes": L + 1}, tiers=tiers))
+        qs.append(Q(f"cmap12_safe_len{L}", "cmap.cpp", "vh_cmap12_safe", {"LEN": L}, unwind=8, unwindset={"vh_bytes": L + 1}, tiers=tiers))
+    return qs
+
+# ------------------------------------------------------------------------------------------- C01
+META["C01"] = {
+    "bounds": "per parser, arbitrary table bytes in an exact-size heap buffer of the listed concrete lengths (see query names); memory safety = cbmc pointer/bounds/free checks + IR-flag UB; totality = unwinding assertions",
+    "outside": "tables longer than the bounds; parsers without a harness yet (listed in DESIGN 3.1 status); gr_make_face end-to-end; allocation failure",
+    "assumptions": [],
+}
+def c01_name():
+    qs = []
+    for L in (6, 18, 19, 20, 26, 32):
+        tiers = ("quick", "thorough") if L <= 26 else ("thorough",)
+        qs.append(Q(f"name_len{L}", "nametable.cpp", "vh_name", {"LEN": L}, unwind=8,
+                    unwindset={"vh_bytes": L + 1, "Locale2Lang": 260, "getMsId": 5, "strncmp": 6, "strchr": 5, "strlen": 5, "NameTable": 8, "getName": 8, "setPlatformEncoding": 6, "getLanguageId": 6, "validate": 6, "vh_stub_locale2lang": 28}, tiers=tiers,
+                    stubs=["_ZN9graphite211Locale2LangC2Ev"]))
+    return qs
+C01_PARTS = [c01_cmap, c01_name]
+@prop("C01")
+def c01():
+    qs = []
+    for f in C01_PARTS: qs += f()
     return qs
